@@ -1079,7 +1079,7 @@ def _order_cells(model, tier, k):
         if any(gk in model.real[b] for b in model.order):
             an = [(gk if gk in model.real[b] else model.real[b][0]) for b in model.order]
             for so in ([rev] if quick else [p_ for p_ in perms if p_ != ident]):
-                yield hyb(an, [3, 1, 2][:nb], so, so)
+                yield dict(hyb(an, [3, 1, 2][:nb], so, so), full_tree=4)
 
 
 def _init_cells(model, tier, k):
@@ -1137,9 +1137,8 @@ def _init_cells(model, tier, k):
                     if codes != base or decoy:
                         yield hyb(setA, codes, decoy)
             for assign in _assignments(model, tier):
-                if "mh" in assign:
-                    for codes in ([other] * nb,) + alt:
-                        yield hyb(assign, codes, ns=[1] * nb)
+                if "mh" in assign and assign != setA:
+                    yield hyb(assign, [other] * nb, ns=[1] * nb)
         # ---- cuqi.sampler.Gibbs ----
         for codes in lcodes:
             if "dens" in codes:
@@ -1154,7 +1153,7 @@ def _init_cells(model, tier, k):
         else:
             for assign in _assignments(model, tier, "legacy"):
                 if any(a in ("mh", "rto") for a in assign):        # classes with an x0 of their own
-                    for codes in (lcodes if sum(1 for a in assign if a == "mh") <= 1 else some):
+                    for codes in some:
                         yield leg(assign, codes, True)
                 if "mh" in assign:
                     yield leg(assign, ["dens"] * nb)
@@ -1171,13 +1170,36 @@ def _init_cells(model, tier, k):
             yield hyb(an, base, True, ns=[1] * nb)
 
 
+def _cost(c):
+    """Rough relative cost of a cell (only used to ORDER the cells; the set of cells is not affected)."""
+    nops = len(HYBRID_OPS if c["iface"] == "hybrid" else LEGACY_OPS)
+    per_sweep = sum((n_ or 1) for n_ in c["nsteps"]) if c.get("nsteps") else len(c["assign"])
+    w = 1 + sum({"mh": 3, "mala": 3, "nuts": 14}.get(a, 0) for a in c["assign"])
+    if _ndec(c["assign"]):
+        w *= 1 + c["full_tree"] / 4.0
+    return nops ** c["depth"] * c["depth"] * per_sweep * w
+
+
 def cells(tier, seed):
-    seen = set()
+    """All cells, each once; ordered so that every chunk of consecutive cells the runner hands to a worker mixes
+    expensive and cheap cells (expensive ones early): the wall time is then not set by one chunk of expensive cells."""
+    seen, out = set(), []
     for c in _cells(tier, seed):
         key = repr(sorted(c.items()))
         if key not in seen:
             seen.add(key)
-            yield c
+            out.append(c)
+    jobs = 8 if tier == "quick" else 16
+    chunk = max(1, min(8, len(out) // (jobs * 8) or 1))          # the runner's chunk size at its default job count
+    nbins = -(-len(out) // chunk)
+    ranked = sorted(range(len(out)), key=lambda i: (-_cost(out[i]), i))
+    bins = [[] for _ in range(nbins)]
+    for r, i in enumerate(ranked):                               # snake deal: every bin gets a similar total
+        lap, pos = divmod(r, nbins)
+        bins[pos if lap % 2 == 0 else nbins - 1 - pos].append(i)
+    for b in bins:
+        for i in b:
+            yield out[i]
 
 
 def _cells(tier, seed):
@@ -1197,7 +1219,7 @@ def _cells(tier, seed):
                 elif quick:
                     depth, full = 2, 4
                 else:
-                    depth = 3 if (ndec == 1 and len(set(ns)) == 1) else 2
+                    depth = 3 if (ndec == 1 and ns == [1] * nb) else 2
                     full = 8 if depth == 2 else 6
                 cell = {"iface": "hybrid", "model": mname, "assign": assign, "nsteps": ns, "depth": depth,
                         "full_tree": full, "cat": k}
